@@ -169,8 +169,61 @@ def run(rep: C.Report) -> None:
         batch=6,
         twins=False,
     )
+    pad_limit(rep)
     run_num(rep, quick)
     expr_precedence(rep)
+
+
+def pad_limit(rep: C.Report) -> None:
+    """Ob1b: the pad functions limit the padded length (MediaWiki: 500).  AST fact: the count that drives the repetition is
+    bounded by min(..., CONST <= 500); otherwise replay {{fn:x|501}} and a huge length."""
+    import ast
+
+    ob = rep.add(C.Ob("Ob1b padleft / padright / #pad limit the padded length to 500", "AST fact + replay", ["parserfns.py:padleft_fn", "parserfns.py:padright_fn", "parserfns.py:pad_fn"], "-"))
+    try:
+        tree = ast.parse(open(os.path.join(C.SRC, "parserfns.py")).read())
+        bad = []
+        for fname in ("padleft_fn", "padright_fn", "pad_fn"):
+            fn = [n for n in tree.body if isinstance(n, ast.FunctionDef) and n.name == fname]
+            ob.conditions += 1
+            ob.queries += 1
+            ob.paths += 1
+            if not fn:
+                bad.append(fname + " (not found)")
+                continue
+            ok = False
+            for n in ast.walk(fn[0]):
+                if isinstance(n, ast.Assign) and any(isinstance(t, ast.Name) and t.id == "cnt" for t in n.targets):
+                    for c in ast.walk(n.value):
+                        if isinstance(c, ast.Call) and isinstance(c.func, ast.Name) and c.func.id == "min" and any(isinstance(a, ast.Constant) and isinstance(a.value, int) and a.value <= 500 for a in c.args) and any(isinstance(x, ast.Call) and isinstance(x.func, ast.Name) and x.func.id == "int" for a in c.args for x in ast.walk(a)):
+                            ok = True
+            if ok:
+                ob.confirmed_conditions += 1
+            else:
+                bad.append(fname)
+        if not bad:
+            ob.verdict = C.DISCHARGED
+            return
+        from wikitextprocessor import Wtp
+
+        w = Wtp(quiet=True, quiet_output=True)
+        w.start_page("T")
+        for name in ("padleft", "padright", "#pad"):
+            for n in ("501", "99999999999"):
+                doc = "{{" + name + ":x|" + n + "}}"
+                try:
+                    r = w.expand(doc)
+                    if len(r) > 500:
+                        v = rep.violation(f"expand({doc!r})", f"result has {len(r)} characters; the documented limit is 500", {"doc": doc})
+                        ob.verdict = C.VIOLATED if v.known is None else C.KNOWN
+                        return
+                except BaseException as e:  # noqa: BLE001 - MemoryError is not an Exception subclass issue; report it
+                    v = rep.violation(f"expand({doc!r})", f"raises {type(e).__name__}", {"doc": doc})
+                    ob.verdict = C.VIOLATED if v.known is None else C.KNOWN
+                    return
+        ob.detail = f"no min(int(...), <=500) bound found in {bad}, but the replays stay within 500 characters -> inconclusive"
+    except Exception as e:  # noqa: BLE001
+        ob.detail += f"{type(e).__name__}: {e}"
 
 
 # documented precedence of #expr (Help:Calculation / ParserFunctions Expr.php), tightest first
